@@ -105,6 +105,7 @@ def write_evidence(mod, ctx, res, wall, n_viol, known_hits):
   cov = {
       'evaluations': res.evals,
       'distinct_nontrivial': len(res.nontrivial),
+      'nontrivial_evaluations_beyond_distinct_bookkeeping': res.nontrivial_beyond,
       'rule': mod.RULE,
       'samples': core.jsonable(res.samples) or ['<none>'],
       'states': max(res.states, len(res.stateset)),
